@@ -51,3 +51,16 @@ check('C11', 'proof',
       'semantics_call runs it first and only for @name rules, before the action and before the success is memoized; rule_call memoizes the rejection as a failure.',
       'Trusted: pyvc, z3, str()/upper() as uninterpreted functions; keyword-set normalisation in Grammar/ParserConfig and the generated parser are bounded runs.',
       'contract-based deductive verification (pyvc) + bounded keyword matrix', '3/C11')
+check('C18', 'other',
+      'Bounded stand-in, not a proof: the REAL executor_pmap loop and taskproc are run against the contract "one result per payload, outcome or captured '
+      'exception, multiset equal to sequential mode" with a deterministic contract-conforming executor whose completion order is enumerated exhaustively '
+      '(all orders, worker counts 1..3, every raising subset, both submit strategies) up to the stated number of payloads, plus sampled real thread pools. '
+      'No deductive verifier reaches generator-based loops over concurrent.futures here; said so in DESIGN.md.',
+      'Bound: payload count (quick <= 5 model / <= 4 real as_completed). Real OS scheduling and process pools are sampled only.',
+      'bounded schedule-exhaustive contract checking of the real loop (stand-in for contract-based verification; labelled bounded)', '3/C18')
+check('C19', 'other',
+      'Bounded stand-in, not a proof: encode/decode inverses of the real functions over all strings up to a length bound on the adversarial alphabet, '
+      'nested payloads, all interleavings of <= 3 sends x <= 3 receives on the real queue, truncation of the queue file at EVERY byte offset of the last record, single-byte corruptions. '
+      'Regex substitution with callbacks, json, hashing and files are outside the pyvc subset.',
+      'Bounds are stated per run in the evidence. Concurrent writers in separate processes are not covered.',
+      'bounded exhaustive contract checking of the real functions (labelled bounded)', '3/C19')
